@@ -236,6 +236,8 @@ def gen_cases(seed, tier):
         "new 0 vec;set 0 H:0 -2147483648;muli 0 1 mut;get 0 H:0;mul 1 0 1 ref;get 1 H:0;set 0 H:0 2147483647;neg 2 0 ref;get 2 H:0;muli 0 -1 own;get 0 H:0",
         "new 0 vec;new 1 vec;set 0 H:0 -1073741824;set 1 H:0 -1073741824;add 2 0 1 ref;get 2 H:0;set 1 H:0 1073741824;subi 0 1 own;get 0 H:0;"
         "inc 0 H:0 2147483647;get 0 H:0;inc 0 H:0 2147483647;get 0 H:0;iadd 0 H:0 1;get 0 H:0;fmass 0",
+        # D31 (fixed): subtracting a count of i32::MIN where the difference fits (the code added the negated count)
+        "new 0 vec;new 1 vec;set 0 H:0 -5;set 1 H:0 -2147483648;sub 2 0 1 ref;get 2 H:0;sub 2 0 1 val;get 2 H:0;subi 0 1 own;get 0 H:0;set 0 H:0 -1;subi 0 1 mut;get 0 H:0",
         "new 0 vec;set 0 H:0 -715827882;muli 0 3 own;get 0 H:0;set 0 H:0 -536870912;muli 0 4 mut;get 0 H:0;set 0 H:0 65536;mul 1 0 -32768 ref;get 1 H:0",
     ]
     for i, c in enumerate(corpus):
